@@ -1367,8 +1367,19 @@ class SessionTransaction(_StateChange, TransactionalContext):
         stx = self.session._transaction
         assert stx is not None
         if stx is not self:
+            # transactions nested inside this one (SAVEPOINTs begun later and
+            # still open) are rolled back first, innermost first, so that the
+            # objects they added, deleted or changed are restored as well;
+            # merely closing them left those objects as the inner
+            # transaction had them while the database rolled everything back
             for subtransaction in stx._iterate_self_and_parents(upto=self):
-                subtransaction.close()
+                if subtransaction._state in (
+                    SessionTransactionState.ACTIVE,
+                    SessionTransactionState.PREPARED,
+                ):
+                    subtransaction.rollback()
+                else:
+                    subtransaction.close()
 
         boundary = self
         rollback_err = None
